@@ -1,5 +1,6 @@
 import MythVerif.Model.WsQueue
 import MythVerif.Proofs.WsQueueSeq
+import Lean
 /-! The inductive invariant of the concurrent SC model of the work-stealing queue
     (DESIGN Appendix A.2, extended to re-centring, put, clear, decision callback, peek). -/
 namespace MythVerif.Wsq
@@ -54,6 +55,8 @@ structure Inv (s : St) : Prop where
   cont  : ∀ k : Nat, k < s.A.length → s.ptr (s.lb + k) = s.A[k]?
   lb0   : 0 ≤ s.lb
   lts   : s.lt ≤ s.size
+  base0 : 0 ≤ s.base
+  tops  : s.top ≤ s.size
   ltop  : topSync s.opc = true → s.lt = s.top + (if midPop s.opc = true then 1 else 0)
   lbase : baseSync s.opc = true → s.base = s.lb + (if s.tr = true then 1 else 0)
   trp   : ∀ p, s.lock = .thief p → (s.tr = true ↔ transient (s.tpc p) = true)
@@ -67,15 +70,16 @@ structure Inv (s : St) : Prop where
   pus   : ∀ e off, s.opc = .pus e off → s.lt = s.top + off ∧ s.lb = s.base + off ∧ s.top = s.size ∧ off < 0
   puv   : ∀ e off, s.opc = .puv e off → s.lb = s.base + off ∧ s.top < s.size
   pux   : ∀ e t, s.opc = .pux e t → s.top = t ∧ t < s.size
-  pu1   : ∀ e t, s.opc = .pu1 e t → s.top = t ∧ t < s.size
+  pu1   : ∀ e t, s.opc = .pu1 e t → s.top = t ∧ t < s.size ∧ 0 ≤ t
   pu2   : ∀ e t, s.opc = .pu2 e t → s.top = t ∧ t < s.size ∧ s.ptr t = some e
   -- pop
-  po2   : ∀ t, s.opc = .po2 t → s.top = t
-  pol   : ∀ t, s.opc = .pol t → s.top = t
-  po4   : ∀ t, s.opc = .po4 t → s.top = t
-  po3   : ∀ t x, s.opc = .po3 t x → s.top = t ∧ s.ptr t = some x ∧ s.lb ≤ t ∧ s.flO = some x
-  po5   : ∀ t x, s.opc = .po5 t x → s.top = t ∧ s.ptr t = some x ∧ s.flO = some x
-  po5b  : ∀ t r, s.opc = .po5b t r → s.top = t ∧ r = s.flO
+  po1   : s.opc = .po1 → 1 ≤ s.top
+  po2   : ∀ t, s.opc = .po2 t → s.top = t ∧ 0 ≤ t ∧ t < s.size
+  pol   : ∀ t, s.opc = .pol t → s.top = t ∧ 0 ≤ t ∧ t < s.size
+  po4   : ∀ t, s.opc = .po4 t → s.top = t ∧ 0 ≤ t ∧ t < s.size
+  po3   : ∀ t x, s.opc = .po3 t x → s.top = t ∧ s.ptr t = some x ∧ s.lb ≤ t ∧ s.flO = some x ∧ t < s.size
+  po5   : ∀ t x, s.opc = .po5 t x → s.top = t ∧ s.ptr t = some x ∧ s.flO = some x ∧ 0 ≤ t ∧ t < s.size
+  po5b  : ∀ t r, s.opc = .po5b t r → s.top = t ∧ r = s.flO ∧ 0 ≤ t ∧ t < s.size
   po5c  : ∀ t r, s.opc = .po5c t r → s.top = t ∧ r = s.flO
   po5d  : ∀ r, s.opc = .po5d r → r = s.flO
   po6   : ∀ r, s.opc = .po6 r → r = s.flO
@@ -93,7 +97,7 @@ structure Inv (s : St) : Prop where
   -- take
   tk2   : ∀ p b, s.tpc p = .tk2 b → s.lb = b
   tk5   : ∀ p b, s.tpc p = .tk5 b → s.lb = b
-  tk3   : ∀ p b x, s.tpc p = .tk3 b x → s.lb = b + 1 ∧ s.ptr b = some x ∧ s.flT = some x
+  tk3   : ∀ p b x, s.tpc p = .tk3 b x → s.lb = b + 1 ∧ s.ptr b = some x ∧ s.flT = some x ∧ 0 ≤ b ∧ b < s.size
   tk4   : ∀ p r, s.tpc p = .tk4 r → r = s.flT
   -- wsapi take
   wk2   : ∀ p b, s.tpc p = .wk2 b → s.lb = b
@@ -107,8 +111,87 @@ structure Inv (s : St) : Prop where
   tp3   : ∀ p e b, s.tpc p = .tp3 e b → s.lb = b ∧ 0 < b ∧ s.ptr (b - 1) = some e
   -- wsapi peek
   vk2   : ∀ p b, s.tpc p = .vk2 b → s.lb = b
-  vk3   : ∀ p b, s.tpc p = .vk3 b → s.lb = b
+  vk3   : ∀ p b, s.tpc p = .vk3 b → s.lb = b ∧ b < s.lt
   vk4   : ∀ p b r, s.tpc p = .vk4 b r → s.lb = b
   vk5   : ∀ p b, s.tpc p = .vk5 b → s.lb = b
+  -- lock-free peek
+  pk2   : ∀ p b, s.tpc p = .pk2 b → 0 ≤ b
+  pk3   : ∀ p b, s.tpc p = .pk3 b → 0 ≤ b ∧ b < s.size
+
+/-! Matcher auxiliary lemmas (`match_n.congr_eq_k`, `_sparseCasesOn_k`) are generated lazily by
+    `simp`/`split`/`grind`; the per-pc lemma files are separate modules, so the auxiliaries are
+    forced into existence here, once, to keep those modules import-compatible. -/
+section ForceAux
+theorem aux_ownerLocked (pc : OPc) (h : ownerLocked pc = true) : ownerLocked pc = true := by
+  simp only [ownerLocked] at *; split <;> simp_all
+theorem aux_midPop (pc : OPc) (h : midPop pc = true) : midPop pc = true := by
+  simp only [midPop] at *; split <;> simp_all
+theorem aux_topSync (pc : OPc) (h : topSync pc = true) : topSync pc = true := by
+  simp only [topSync] at *; split <;> simp_all
+theorem aux_baseSync (pc : OPc) (h : baseSync pc = true) : baseSync pc = true := by
+  simp only [baseSync] at *; split <;> simp_all
+theorem aux_ownerFlight (pc : OPc) (h : ownerFlight pc = true) : ownerFlight pc = true := by
+  simp only [ownerFlight] at *; split <;> simp_all
+theorem aux_thiefLocked (pc : TPc) (h : thiefLocked pc = true) : thiefLocked pc = true := by
+  simp only [thiefLocked] at *; split <;> simp_all
+theorem aux_transient (pc : TPc) (h : transient pc = true) : transient pc = true := by
+  simp only [transient] at *; split <;> simp_all
+theorem aux_thiefFlight (pc : TPc) (h : thiefFlight pc = true) : thiefFlight pc = true := by
+  simp only [thiefFlight] at *; split <;> simp_all
+theorem aux_stepO (s s' : St) (h : stepO s = some s') (h0 : s.opc = .idle) : False := by
+  simp only [stepO, h0] at h; simp at h
+theorem aux_stepO2 (s s' : St) (h : stepO s = some s') (h0 : s.opc = .po9) : s'.opc = .idle := by
+  simp only [stepO, h0] at h; simp at h; subst h; rfl
+theorem aux_stepT (s s' : St) (p : Pid) (h : stepT s p = some s') (h0 : s.tpc p = .idle) : False := by
+  simp only [stepT, h0] at h; simp at h
+theorem aux_stepT2 (s s' : St) (p : Pid) (h : stepT s p = some s') (h0 : s.tpc p = .vr) : s'.lock = s.lock := by
+  simp only [stepT, h0] at h; simp at h; subst h; rfl
+theorem aux_stepD (s s' : St) (p : Pid) (a : Bool) (h : stepD s p a = some s') (h0 : s.tpc p = .idle) : False := by
+  simp only [stepD, h0] at h; simp at h
+theorem aux_stepD2 (s s' : St) (p : Pid) (a : Bool) (h : stepD s p a = some s') : ∃ b r, s.tpc p = .wkd b r := by
+  simp only [stepD] at h
+  split at h
+  · exact ⟨_, _, by assumption⟩
+  · simp at h
+theorem aux_callO (s s' : St) (pc : OPc) (h : callO s pc = some s') : s.opc = .idle := by
+  simp only [callO] at h
+  split at h
+  · assumption
+  · simp at h
+theorem aux_callT (s s' : St) (p : Pid) (pc : TPc) (h : callT s p pc = some s') : s.tpc p = .idle := by
+  simp only [callT] at h
+  split at h
+  · assumption
+  · simp at h
+theorem aux_g_ownerLocked (pc : OPc) (h : ownerLocked pc = true) (h2 : pc = .idle) : False := by
+  simp only [ownerLocked] at h; grind
+theorem aux_g_midPop (pc : OPc) (h : midPop pc = true) (h2 : pc = .idle) : False := by
+  simp only [midPop] at h; grind
+theorem aux_g_ownerFlight (pc : OPc) (h : ownerFlight pc = true) (h2 : pc = .idle) : False := by
+  simp only [ownerFlight] at h; grind
+theorem aux_g_thiefLocked (pc : TPc) (h : thiefLocked pc = true) (h2 : pc = .idle) : False := by
+  simp only [thiefLocked] at h; grind
+theorem aux_g_transient (pc : TPc) (h : transient pc = true) (h2 : pc = .idle) : False := by
+  simp only [transient] at h; grind
+theorem aux_g_thiefFlight (pc : TPc) (h : thiefFlight pc = true) (h2 : pc = .idle) : False := by
+  simp only [thiefFlight] at h; grind
+theorem aux_g_topSync (pc : OPc) (h : topSync pc = false) (h2 : pc = .idle) : False := by
+  simp only [topSync] at h; grind
+theorem aux_g_baseSync (pc : OPc) (h : baseSync pc = false) (h2 : pc = .idle) : False := by
+  simp only [baseSync] at h; grind
+theorem aux_g_stepO (s s' : St) (h : stepO s = some s') (h0 : s.opc = .idle) : False := by
+  simp only [stepO] at h; grind
+theorem aux_g_stepT (s s' : St) (p : Pid) (h : stepT s p = some s') (h0 : s.tpc p = .idle) : False := by
+  simp only [stepT] at h; grind
+open Lean Meta in
+run_meta do
+  let env ← getEnv
+  for f in [``ownerLocked, ``midPop, ``topSync, ``baseSync, ``ownerFlight, ``thiefLocked, ``transient, ``thiefFlight,
+            ``stepO, ``stepT, ``stepD, ``callO, ``callT, ``retOpt, ``step] do
+    for i in [1, 2, 3, 4, 5, 6, 7, 8] do
+      let n := f ++ (Name.mkSimple s!"match_{i}")
+      if env.contains n then
+        discard <| Match.genMatchCongrEqns n
+end ForceAux
 
 end MythVerif.Wsq
